@@ -244,10 +244,8 @@ def cone(vfile):
             txt = open(os.path.join(COQ, f)).read()
         except IOError:
             continue
-        for m in re.finditer(r"From\s+UV\s+Require\s+(?:Import|Export)?\s*([^.]*(?:\.[A-Za-z_][^.\s]*)*)\.", txt):
-            pass
-        for line in re.findall(r"From\s+UV\s+Require\s+(?:Import\s+|Export\s+)?(.*?)\.\s*$", txt, re.M):
-            for mod in line.split():
+        for m in re.finditer(r"From\s+UV\s+Require\s+(?:Import\s+|Export\s+)?((?:\w+(?:\.\w+)*\s+)*\w+(?:\.\w+)*)\s*\.(?=\s)", strip_comments(txt)):
+            for mod in m.group(1).split():
                 path = mod.replace(".", "/") + ".v"
                 if os.path.exists(os.path.join(COQ, path)):
                     todo.append(path)
